@@ -105,6 +105,23 @@ ADDED = {
  "C17": " Also: the router compares the bucket name only with the empty string and hands the untransformed path segment to the validator. baseFs (the backend's own directories) is never consulted for bucket names.",
 }
 
+# clauses added by seed round 5 / the second look at the mutation sweep (DESIGN.md §4)
+ADDED5 = {
+ "C01": " (shared) The key the router and the host middlewares hand on is the untransformed path segment / Host label (no cleaning, joining or case folding).",
+ "C02": " (shared) The fs metadata record name hashes the unmodified key; stored metadata maps are never written through a handed-out Object; a bucket's metadata records are discarded only by bucket deletion, after the directory; Fs.RemoveAll is never given a bucket name (F32); a bolt transaction body acknowledges only after its own mutation was issued.",
+ "C03": " (shared) The host middlewares apply no cleaning / joining to the incoming path.",
+ "C04": " (shared) AddPrefix appends a common prefix only when it is not in the set of prefixes already added, and records it.",
+ "C09": " Nothing reachable from the body of a bolt transaction opens another transaction.",
+ "C10": " (shared) A bolt cursor deletes only the record whose key compared equal with the key sought (no deletion by key prefix). Fs.RemoveAll (string-prefix semantics in the pinned MemMapFs) is given only the root or an entry of the bucket being removed (found and repaired F32).",
+ "C11": " Object.Size has the provenance of the size the range was validated against.",
+ "C12": " (shared) Error discipline in path form on the body-decoding path (no decoder / drain error is dropped).",
+ "C13": " The version iterator's Seek answers true exactly where the archive lookup or the current version's id matched (assumption reachability). With a key-marker / version-id-marker the iterators are positioned by Seek before they are advanced (flag-tracking reachability), the version-id-marker applies to the first key only, and the look-ahead for remaining versions and keys both reach IsTruncated, never as constant false.",
+ "C14": " ListMultipartUploads: with a marker the loop is entered only through Seek(marker.Object); a mid-key stop names uploads[idx+1] as next upload id; IsTruncated is true on every path from a marker store; markers are stored once; nothing is listed on the failed side of a prefix match.",
+ "C15": " A bucket's metadata records are discarded only by DeleteBucket / ForceDeleteBucket, after the bucket directory on every path.",
+ "C16": " The key does not depend on the request method and nothing is appended to it; no case folding of the Host header.",
+ "C17": " (shared) In virtual-host addressing the name the validator sees is the Host label as sent (no case folding).",
+}
+
 def main():
     ids = [json.loads(l)["id"] for l in open(os.path.join(VERIF, "properties.jsonl"))]
     checks = []
@@ -119,7 +136,7 @@ def main():
             "evidence_file": "evidence/%s.json" % pid,
             "replay_cmd_template": "./check %s --replay {path}" % pid,
             "engine": "gfs3check",
-            "level_claimed": {"category": "other", "text": c["text"] + ADDED.get(pid, ""), "design_ref": c["ref"]},
+            "level_claimed": {"category": "other", "text": c["text"] + ADDED.get(pid, "") + ADDED5.get(pid, ""), "design_ref": c["ref"]},
             "level_note": c["note"],
             "technique": TECH + c["tech"],
         })
